@@ -169,6 +169,7 @@ func (d *DataChannel) open(sctpTransport *SCTPTransport) error { //nolint:cyclop
 	if d.id == nil {
 		// avoid holding lock when generating ID, since id generation locks
 		d.mu.Unlock()
+		verifhook.Point("dc.open.beforeIDGeneration")
 		var dcID *uint16
 		err := d.sctpTransport.generateAndSetDataChannelID(d.sctpTransport.dtlsTransport.role(), &dcID)
 		if err != nil {
